@@ -37,6 +37,21 @@ def poison_cases():
                 {'items': [{'agg': 'count', 'e': ['lit', qgen.num(1)]}], 'group': [poison]},
                 {'items': [{'agg': 'sum', 'e': poison}]},
                 {'items': [{'agg': 'max', 'e': ['a', 1]}]},             # numeric conversion of a non-numeric string
+                {'items': [{'agg': 'min', 'e': ['a', 1]}]},
+                {'items': [{'e': ['a', 0]}, {'agg': 'min', 'e': ['a', 1]}], 'group': [['a', 0]]},
+                {'items': [{'agg': 'sum', 'e': ['a', 1]}]},
+                {'items': [{'e': ['a', 0]}, {'agg': 'sum', 'e': ['a', 1]}], 'group': [['a', 0]]},
+                {'items': [{'agg': 'avg', 'e': ['a', 1]}]},
+                {'items': [{'e': ['a', 0]}, {'agg': 'avg', 'e': ['a', 1]}], 'group': [['a', 0]]},
+                {'items': [{'agg': 'variance', 'e': ['a', 1]}]},
+                {'items': [{'e': ['a', 0]}, {'agg': 'variance', 'e': ['a', 1]}], 'group': [['a', 0]]},
+                {'items': [{'agg': 'median', 'e': ['a', 1]}]},
+                {'items': [{'e': ['a', 0]}, {'agg': 'median', 'e': ['a', 1]}], 'group': [['a', 0]]},
+                {'items': [{'agg': 'count', 'e': poison}], 'group': [['a', 0]]},
+                {'items': [{'agg': 'array_agg', 'e': poison}], 'group': [['a', 0]]},
+                {'items': [{'agg': 'any_value', 'e': poison}], 'group': [['a', 0]]},
+                {'items': [{'agg': 'median', 'e': poison}], 'group': [['a', 0]]},
+                {'items': [{'agg': 'min', 'e': poison}], 'group': [['a', 0]]},
                 {'update': True, 'items': [], 'assigns': [[0, ['concat', ['a', 2], ['lit', '!']]]]},
                 {'update': True, 'items': [], 'assigns': [[2, ['lit', 'new']]]},     # assigning to a field the record does not have
                 {'items': [{'e': ['a', 0]}, {'e': ['b', 1]}], 'join': {'kind': 'inner', 'lhs': [2], 'rhs': [0]}},   # join key on a missing field
